@@ -230,7 +230,7 @@ def axi_check(kind, case, rec):
 def cond_strategy(kind, tier):
     return st.fixed_dictionaries({"n": st.lists(st.integers(2, 3), min_size=3, max_size=3), "jitter": st.sampled_from([0.0, 0.2]), "seed": st.integers(0, 2**16),
                                   "mu": fl(0.5, 2), "bulkratio": st.sampled_from([1.0, 5.0, 50.0, 500.0, 5000.0]), "move": fl(-0.2, 0.4), "clamped": st.booleans(),
-                                  "mat": st.sampled_from(["NeoHooke", "tt:yeoh", "tt:mooney_rivlin"])})
+                                  "mat": st.sampled_from(["NeoHooke", "tt:yeoh", "tt:mooney_rivlin", "NeoHooke", "OgdenRoxburgh"])})
 
 
 def cond_check(kind, case, rec):
@@ -255,14 +255,28 @@ def cond_check(kind, case, rec):
         um = fem.NeoHooke(mu=mu)
     elif case["mat"] == "tt:yeoh":
         um = gmat.build("tt:yeoh", {"C10": mu / 2, "C20": 0.05, "C30": 0.01})
+    elif case["mat"] == "OgdenRoxburgh":
+        # pseudo-elastic softening: a material with state variables (documented for both formulations); decided on a load
+        # path with unloading, where the committed maximum energy matters
+        um = fem.OgdenRoxburgh(fem.NeoHooke(mu=mu), r=3.0, m=mu, beta=0.1)
+        rec.label("material-with-state-variables")
     else:
         um = gmat.build("tt:mooney_rivlin", {"C10": mu / 3, "C01": mu / 6})
+    stateful = case["mat"] == "OgdenRoxburgh"
     ps = not dim3 and not axi
     f1 = fem.FieldContainer([fem.FieldAxisymmetric(region, dim=2) if axi else fem.FieldPlaneStrain(region, dim=2) if ps else fem.Field(region, dim=3)])
     s1 = fem.SolidBodyNearlyIncompressible(um, f1, bulk=bulk)
     r0vec = np.asarray(s1.assemble.vector(f1).toarray()).ravel().copy()
     K0 = np.asarray(s1.assemble.matrix(f1).toarray())
     rec.close("condensed: no forces in the undeformed body", float(np.abs(r0vec).max()) / float(np.abs(K0).max()), 1e-12)
+    prestart = case["seed"] % 4 == 1
+    if prestart:
+        # start values: both bodies are created on fields that already carry a volume-changing displacement (restart, second
+        # analysis stage); the reference volumes are those of the undeformed mesh all the same
+        ustart = np.zeros_like(f1[0].values)
+        ustart[:, 0] = 0.15 * (np.asarray(mesh.points)[:, 0] - np.asarray(mesh.points)[:, 0].min())
+        f1[0].values[...] = ustart
+        rec.label("bodies-created-on-a-deformed-field")
     s1 = fem.SolidBodyNearlyIncompressible(um, f1, bulk=bulk)
     if case["seed"] % 3 == 0:
         # earlier in the session another mixed container was created with the documented non-default disconnect=False
@@ -281,11 +295,14 @@ def cond_check(kind, case, rec):
         fem.SolidBody(fem.NearlyIncompressible(um, bulk=bulk), prev).assemble.vector(prev)
         f2 = fem.FieldContainer([fem.FieldAxisymmetric(region, dim=2), prev[1], prev[2]])
         rec.label("dual-fields-taken-over-from-another-analysis")
+    if prestart:
+        f2[0].values[...] = ustart
     s2 = fem.SolidBody(fem.NearlyIncompressible(um, bulk=bulk), f2)
     def solve(solid, field, steps):
         res = None
-        for k in range(1, steps + 1):
-            _, lc = fem.dof.uniaxial(field, clamped=case["clamped"], move=case["move"] * k / steps)
+        levels = [case["move"] * k / steps for k in range(1, steps + 1)] + ([case["move"] * 0.4] if stateful else [])
+        for level in levels:
+            _, lc = fem.dof.uniaxial(field, clamped=case["clamped"], move=level)
             try:
                 res = fem.newtonrhapson(items=[solid], **lc, tol=1e-11, maxiter=40)
             except ValueError:
@@ -324,7 +341,10 @@ def cond_check(kind, case, rec):
         return
     rec.nontrivial = abs(case["move"]) >= 0.05 and case["clamped"]
     u1, u2 = res1.x[0].values, res2.x[0].values
-    rec.close("displacements", float(np.abs(u1 - u2).max()) / max(float(np.abs(u2).max()), 1e-9), 1e-7, {"bulk/mu": case["bulkratio"]})
+    # scale: the converged displacements, or the start values the iteration came from (a body released from a deformed start
+    # state returns to u = 0 up to the Newton tolerance)
+    uscale = max(float(np.abs(u2).max()), 0.15 if prestart else 0.0, 1e-9)
+    rec.close("displacements", float(np.abs(u1 - u2).max()) / uscale, 1e-7, {"bulk/mu": case["bulkratio"]})
     # settle the condensed state at the converged displacements
     s1.assemble.vector(res1.x)
     p1, J1 = np.asarray(s1.results.state.p).ravel(), np.asarray(s1.results.state.J).ravel()
